@@ -94,8 +94,9 @@ def run(chk):
     p4_call_sites(chk)
     bounded(chk)
     chk.assumptions += [
-        "P1 (behavioural contracts of append_child/replace_child/remove_child/move_to/copy over an abstract heap and the WF lemmas over them) is not discharged: the proof part of this check is the frame obligation only; WF itself is observed by the bounded stand-in",
-        "that each pass meets the primitives' preconditions at every call site is observed per pass by the bounded stand-in, not proved",
+        "P1: `children` lists are views on the abstract heap (parent, len, elem); list.insert / slicing / `del` by their pointwise contracts; move_to's adjacency postcondition is dropped (small-real-tree enumeration only)",
+        "P4 discharges only the precondition 'child is listed by the receiver' and only at call sites of shapes A-D (see evidence extra.call_sites for the sites left to the bounded stand-in); that the receiver `E.parent` is not None at a site, and that a pass as a whole keeps WF, is observed per pass by the bounded stand-in, not proved",
+        "well-formedness W1-W3 at the entry of every pass (established by build_advanced_tree: observed by the bounded stand-in after build)",
     ]
 
 
